@@ -229,6 +229,11 @@ func runC09(c *Ctx, phase string) {
 				mk(hole+"-or-later", partners[len(partners)-1])
 				mk(partners[len(partners)-1], hole+"-or-later")
 				mk(hole+"-or-later+ WITH "+exc, id+"+ WITH "+exc)
+				mk(hole+"-only+", partners[len(partners)-1])
+				mk(partners[len(partners)-1], hole+"-only+")
+				mk(hole+"-or-later+", partners[len(partners)-1])
+				mk(partners[len(partners)-1], hole+"-or-later+")
+				mk("MIT AND "+hole+"-or-later+", "MIT", id)
 				mk("("+hole+"-only) AND MIT", id, "MIT")
 			}
 			// two different case variants of the same id in one expression / one list
